@@ -612,6 +612,7 @@ func ruleC01(c *Ctx) {
 		})
 	}
 
+	checkReferenceHead(c, parse)
 	// ---- WRAPPERS
 	checkReturnIs(c, "WRAPPERS", "Read", w.fn("io/genbank", "Read"), 0, "call[poly/io/genbank.Parse](extract[0](call[os.ReadFile](param[0])))", "Read(path) = Parse(ReadFile(path))")
 	checkReturnIs(c, "WRAPPERS", "ReadMulti", w.fn("io/genbank", "ReadMulti"), 0, "call[poly/io/genbank.ParseMulti](extract[0](call[os.ReadFile](param[0])))", "ReadMulti(path) = ParseMulti(ReadFile(path))")
@@ -677,4 +678,42 @@ func dedupe(s []string) []string {
 		}
 	}
 	return out
+}
+
+// checkReferenceHead: the REFERENCE line's number is its first blank-delimited token and the range is the
+// rest. The flat file separates them by one OR MORE blanks (NCBI writes one blank once the number has
+// two digits), so splitting on anything but a single blank (or on white space generally) mis-reads records.
+func checkReferenceHead(c *Ctx, parse *ssa.Function) {
+	for _, f := range family(parse) {
+		tb := newDeepTB(f)
+		eachInstr(f, func(i ssa.Instruction) {
+			st, ok := i.(*ssa.Store)
+			if !ok {
+				return
+			}
+			fa, ok := st.Addr.(*ssa.FieldAddr)
+			if !ok || storeTarget(fa) != "Reference.Index" {
+				return
+			}
+			c.useFn(f)
+			v := tb.T(st.Val)
+			state, why := unknown, "the reference number is "+short(v.String())
+			if v.Op == "index" && v.Args[1].isConst("0") {
+				sp := v.Args[0]
+				switch {
+				case sp.isCall("strings.Fields"):
+					state = holds
+				case sp.isCall("strings.Split") || sp.isCall("strings.SplitN"):
+					if sep, isC := sp.Args[1].constStr(); isC {
+						if sep == " " {
+							state = holds
+						} else {
+							state, why = broken, fmt.Sprintf("the REFERENCE line is split on %q: a record that separates the number from its range by a single blank (as NCBI does for two-digit numbers) gets the whole text as its Index and an empty Range", sep)
+						}
+					}
+				}
+			}
+			c.judge(state, "FIELDMAP-R", "REFERENCE number = first blank-delimited token", st.Pos(), "the reference number is the first token of the line split on single blanks", why)
+		})
+	}
 }
